@@ -90,12 +90,57 @@ type runner struct {
 	mu   sync.Mutex
 	c    *child
 	prev string
+	seq  int
+	hist []string
+	served int // requests the current child has answered
+	late   int // children found dead after having answered
 }
 
 // do sends one request; if the child dies it is restarted for the next one.
+//
+// reset discards the current child (after an answer that may have left a
+// panicking goroutine behind).
+func (r *runner) reset() {
+	r.mu.Lock()
+	defer r.mu.Unlock()
+	if r.c != nil {
+		r.c.cmd.Process.Kill()
+		r.c.cmd.Wait()
+		r.c = nil
+	}
+	r.served = 0
+}
+
+// A panic in one of the loader's goroutines lets errgroup.Wait return (its
+// deferred Done runs while the panic unwinds), so the child may still answer
+// the request -- with a wrong result -- and die only afterwards.  A child
+// that is found dead before it printed the first stage marker of a request
+// therefore died of the PREVIOUS request (which has been judged on its
+// answer); the request is repeated once on a fresh child.
 func (r *runner) do(req *request) (*outcome, error) {
 	r.mu.Lock()
 	defer r.mu.Unlock()
+	out, err := r.doOnce(req)
+	if r.served > 0 && ((err == nil && out.crashed) || err == errChildGone) {
+		// possibly the late death of an earlier request's goroutine: a
+		// crash that belongs to this request recurs on a fresh child
+		if err == errChildGone || out.stage == "start" {
+			r.late++
+		}
+		r.served = 0
+		out, err = r.doOnce(req)
+	}
+	if err == nil && !out.crashed {
+		r.served++
+	} else {
+		r.served = 0
+	}
+	return out, err
+}
+
+var errChildGone = fmt.Errorf("the child process was gone before the request could be written")
+
+func (r *runner) doOnce(req *request) (*outcome, error) {
 	if r.c == nil {
 		c, err := startChild()
 		if err != nil {
@@ -103,18 +148,18 @@ func (r *runner) do(req *request) (*outcome, error) {
 		}
 		r.c = c
 	}
+	r.seq++
+	req.ID = r.seq
 	b, _ := json.Marshal(req)
+	r.hist = append(r.hist, fmt.Sprintf("%d:%v", req.ID, req.Values[:min(3, len(req.Values))]))
+	if len(r.hist) > 4 {
+		r.hist = r.hist[1:]
+	}
+	r.prev = strings.Join(r.hist, " | ")
 	if _, err := r.c.in.Write(append(b, '\n')); err != nil {
 		r.c.cmd.Wait()
-		msg := r.c.stderr.String()
-		if d := os.Getenv("C03_DEBUG"); d != "" {
-			os.WriteFile(fmt.Sprintf("%s/wfail-%d.txt", d, time.Now().UnixNano()), []byte("PREV "+r.prev+"\n"+msg), 0o644)
-		}
 		r.c = nil
-		if len(msg) > 400 {
-			msg = msg[:400]
-		}
-		return nil, fmt.Errorf("the child died after completing the previous request (%s): %s", r.prev, msg)
+		return nil, errChildGone
 	}
 	stage := "start"
 	var trail []string
@@ -131,6 +176,9 @@ func (r *runner) do(req *request) (*outcome, error) {
 			var res response
 			if e := json.Unmarshal(line, &res); e != nil {
 				return nil, fmt.Errorf("bad child output %q: %v", line, e)
+			}
+			if res.ID != req.ID {
+				return nil, fmt.Errorf("child answered request %d while %d was pending", res.ID, req.ID)
 			}
 			if res.Done {
 				if res.Panic != "" {
@@ -166,7 +214,9 @@ func (r *runner) do(req *request) (*outcome, error) {
 
 type env struct {
 	c      *core.Ctx
-	run    *runner
+	pool   chan *runner
+	all    []*runner
+	mu     sync.Mutex
 	kinds  map[string]int
 	defect map[string]int
 	rule   struct {
@@ -174,6 +224,8 @@ type env struct {
 		Eightbit []string `json:"eightbit"`
 	}
 	drifts int
+	quiet  bool // negative control: count drift, do not report it
+	lastQuiet string
 }
 
 func shapeKinds(s Shape, m map[string]int) {
@@ -369,10 +421,14 @@ func (e *env) checkCase(family string, cs *Case, uniIdx, scale int) error {
 	for _, p := range cs.Proj {
 		req.Projs = append(req.Projs, p.Paths)
 	}
-	out, err := e.run.do(req)
+	run := <-e.pool
+	defer func() { e.pool <- run }()
+	out, err := run.do(req)
 	if err != nil {
 		return err
 	}
+	e.mu.Lock()
+	defer e.mu.Unlock()
 	shape := caseShape(cs)
 	known := defectSig(cs.Defects)
 	if out.crashed {
@@ -403,6 +459,9 @@ func (e *env) checkCase(family string, cs *Case, uniIdx, scale int) error {
 	}
 	vecOK := res.Vec.Err == "" && strings.Join(res.Vec.Vals, "\n") == strings.Join(res.In, "\n")
 	if !vecOK {
+		if has(cs.Defects, "enum") || known == "" {
+			run.reset() // a loader goroutine may still be panicking
+		}
 		what := fmt.Sprintf("vcache+vam materialize %v (%s) for the written sequence %v", res.Vec.Vals, res.Vec.Err, res.In)
 		if known != "" {
 			c.Violate(known, what, wit)
@@ -424,6 +483,9 @@ func (e *env) checkCase(family string, cs *Case, uniIdx, scale int) error {
 		if !bad {
 			continue
 		}
+		if has(cs.Defects, "enum") || (known == "" && !cs.Proj[pi].Partial) {
+			run.reset()
+		}
 		what := fmt.Sprintf("projection %v of %v yields %v (%s); data at those paths in the full read: %v", cs.Proj[pi].Paths, res.In, pr.Vals, pr.Err, full)
 		switch {
 		case known != "":
@@ -439,12 +501,14 @@ func (e *env) checkCase(family string, cs *Case, uniIdx, scale int) error {
 		if !eqInts(res.Row.Flat, cs.Row) {
 			e.drift("row reader: spec predicts %v, real %v for %v", cs.Row, res.Row.Flat, res.In)
 		}
-		if !eqInts(res.Vec.Flat, cs.Vec) && !(len(cs.Vec) == 1 && cs.Vec[0] == -99 && !vecOK) {
+		// for cases with a modelled defect the spec predicts THAT the vector
+		// path fails, not the exact shape of the failure
+		if len(cs.Defects) == 0 && !eqInts(res.Vec.Flat, cs.Vec) {
 			e.drift("vector path: spec predicts %v, real %v (%s) for %v", cs.Vec, res.Vec.Flat, res.Vec.Err, res.In)
 		}
 		for pi, pr := range res.Proj {
 			want := cs.Proj[pi].Res
-			if !eqInts(pr.Flat, want) && !(len(want) == 1 && want[0] == -99 && pr.Err != "") {
+			if len(cs.Defects) == 0 && !cs.Proj[pi].Partial && !eqInts(pr.Flat, want) {
 				e.drift("projection %v: spec predicts %v, real %v (%s) for %v", cs.Proj[pi].Paths, want, pr.Flat, pr.Err, res.In)
 			}
 		}
@@ -484,6 +548,10 @@ func (e *env) partialAt(cs *Case, stage string) bool {
 
 func (e *env) drift(format string, a ...any) {
 	e.drifts++
+	if e.quiet {
+		e.lastQuiet = fmt.Sprintf(format, a...)
+		return
+	}
 	e.c.Drift(format, a...)
 }
 
@@ -543,6 +611,7 @@ func (e *env) boundary() error {
 	}
 	ds := []int{1, 2, 255, 256, 257, 300}
 	n := 0
+	var jobs []func() error
 	for pi, p := range prims {
 		for _, d := range ds {
 			if p.eightbit && d > 256 {
@@ -551,16 +620,17 @@ func (e *env) boundary() error {
 			for nullMode := 0; nullMode < 4; nullMode++ { // none, start, middle, end
 				for wrap := 0; wrap < 3; wrap++ { // top level, record field, array elements
 					if !c.Quick() || (n+int(c.Seed))%3 == 0 || wrap == 0 {
-						if err := e.boundaryCase(pi, p.typ, p.lit, p.eightbit, d, nullMode, wrap); err != nil {
-							return err
-						}
+						pi, p, d, nullMode, wrap := pi, p, d, nullMode, wrap
+						jobs = append(jobs, func() error {
+							return e.boundaryCase(pi, p.typ, p.lit, p.eightbit, d, nullMode, wrap)
+						})
 					}
 					n++
 				}
 			}
 		}
 	}
-	return nil
+	return runJobs(jobs, cap(e.pool))
 }
 
 func (e *env) boundaryCase(pi int, typ string, lit func(int) string, eightbit bool, d, nullMode, wrap int) error {
@@ -603,10 +673,14 @@ func (e *env) boundaryCase(pi int, typ string, lit func(int) string, eightbit bo
 		req.Projs = [][][]string{paths}
 	}
 	wit := &witness{Kind: "boundary", Values: values, Paths: paths}
-	out, err := e.run.do(req)
+	run := <-e.pool
+	defer func() { e.pool <- run }()
+	out, err := run.do(req)
 	if err != nil {
 		return err
 	}
+	e.mu.Lock()
+	defer e.mu.Unlock()
 	key := fmt.Sprintf("boundary|%s|%d|%d|%d", typ, d, nullMode, wrap)
 	c.Eval(key, true)
 	table := e.rule.Dictable
@@ -632,6 +706,7 @@ func (e *env) boundaryCase(pi int, typ string, lit func(int) string, eightbit bo
 		c.Violate(fmt.Sprintf("row-reader:boundary:%s:%s", typ, want), fmt.Sprintf("vngio.NewReader does not return the %d written values of type %s with %d distinct values (%s)", len(res.In), typ, d, res.Row.Err), wit)
 	}
 	if res.Vec.Err != "" || strings.Join(res.Vec.Vals, "\n") != strings.Join(res.In, "\n") {
+		run.reset()
 		what := fmt.Sprintf("vcache+vam do not return the %d written values of type %s with %d distinct values (%s)", len(res.In), typ, d, res.Vec.Err)
 		if plainNet {
 			c.Violate(sigNetPlain, what, wit)
@@ -646,6 +721,7 @@ func (e *env) boundaryCase(pi int, typ string, lit func(int) string, eightbit bo
 			bad = strings.Join(pr.Nav[i], "\x00") != strings.Join(full[i], "\x00")
 		}
 		if bad {
+			run.reset()
 			if plainNet {
 				c.Violate(sigNetPlain, "projection of a plain net column fails: "+pr.Err, wit)
 			} else {
@@ -659,6 +735,63 @@ func (e *env) boundaryCase(pi int, typ string, lit func(int) string, eightbit bo
 		e.drift("encoding rule: %d distinct values of %s: spec (DictMax=256) says %s, real metadata has %s", d, typ, want, got)
 	}
 	e.kinds["boundary-"+got]++
+	return nil
+}
+
+// fixedCases re-runs the minimal witness of every known finding on each
+// invocation (nothing is reported when the code no longer fails on it).
+func (e *env) fixedCases() error {
+	type fixed struct {
+		sig    string
+		values []string
+		paths  [][]string
+	}
+	cases := []fixed{
+		{sigUnionNulls, []string{`1((int64,string))`, `null((int64,string))`, `"a"((int64,string))`}, nil},
+		{sigUnionNulls, []string{`null({u:(int64,string),b:int64})`, `{u:1,b:1}({u:(int64,string),b:int64})`}, nil},
+		{sigErrorNulls, []string{`null({e:error(string),a:int64})`, `{e:null,a:1}({e:error(string),a:int64})`}, nil},
+		{sigEnum, []string{`%x(enum(x,y))`, `%y(enum(x,y))`}, nil},
+		{sigPartial, []string{`{r:[{a:1,b:"x"}],c:1}({r:[{a:int64,b:string}],c:int64})`}, [][]string{{"r", "a"}}},
+	}
+	for i, fc := range cases {
+		req := &request{Values: fc.values}
+		if fc.paths != nil {
+			req.Projs = [][][]string{fc.paths}
+		}
+		wit := &witness{Kind: "boundary", Values: fc.values, Paths: fc.paths}
+		run := <-e.pool
+		out, err := run.do(req)
+		e.pool <- run
+		if err != nil {
+			return err
+		}
+		e.c.Eval(fmt.Sprintf("fixed|%d", i), true)
+		if out.crashed {
+			e.c.Violate(fc.sig, fmt.Sprintf("the process panics in stage %q for %v: %s", out.stage, fc.values, out.panic), wit)
+			continue
+		}
+		res := out.res
+		if res.Err != "" {
+			return fmt.Errorf("fixed case %v: %s", fc.values, res.Err)
+		}
+		if res.Row.Err != "" || strings.Join(res.Row.Vals, "\n") != strings.Join(res.In, "\n") {
+			e.c.Violate("row-reader:fixed", fmt.Sprintf("vngio.NewReader returns %v for %v", res.Row.Vals, res.In), wit)
+		}
+		if res.Vec.Err != "" || strings.Join(res.Vec.Vals, "\n") != strings.Join(res.In, "\n") {
+			run.reset()
+			e.c.Violate(fc.sig, fmt.Sprintf("vcache+vam materialize %v (%s) for the written sequence %v", res.Vec.Vals, res.Vec.Err, res.In), wit)
+		}
+		for pi, pr := range res.Proj {
+			full := res.Full[pi]
+			bad := pr.Err != "" || len(pr.Nav) != len(full)
+			for k := 0; !bad && k < len(full); k++ {
+				bad = strings.Join(pr.Nav[k], "\x00") != strings.Join(full[k], "\x00")
+			}
+			if bad {
+				e.c.Violate(fc.sig, fmt.Sprintf("projection %v of %v yields %v (%s)", fc.paths, res.In, pr.Vals, pr.Err), wit)
+			}
+		}
+	}
 	return nil
 }
 
@@ -704,10 +837,19 @@ func run(c *core.Ctx) error {
 	c.Trust("TLC 1.8; the harness's instantiation of abstract values as ZSON literals (zson parser) and its projection of real values/metadata onto the spec's vocabulary; child-process isolation of panics")
 	c.Assume("type families of depth <= 3 (primitives incl. 8-bit and enum, records, nested records, arrays/sets/maps of records, unions, named and error types), sequences of <= 3-4 values (scaled x255 for the dictionary boundary), primitive tokens mapped to int64/float64/duration/time, string/bytes, uint8/int8/bool variants; compression codec and segment byte layout are exercised, not modelled")
 	c.Rule("cases = every value sequence up to MaxLen over each family's alphabet enumerated by TLC from VngEnc.tla (with the predicted column tree and the predicted results of the row reader, the vector path and each projection), instantiated with a seed-chosen variant of concrete types at scale 1 and, for a sample, at scale 255 (columns of 255/256/257 distinct values), plus boundary columns of 1,2,255,256,257,300 distinct values x null placement x nesting whose kind is predicted by the spec's rule table at DictMax=256; distinct = (family, sequence, scale) / boundary parameters; non-trivial = the sequence is non-empty")
-	e := &env{c: c, run: &runner{}, kinds: map[string]int{}, defect: map[string]int{}}
+	e := &env{c: c, kinds: map[string]int{}, defect: map[string]int{}}
+	nrun := 6
+	e.pool = make(chan *runner, nrun)
+	for i := 0; i < nrun; i++ {
+		r := &runner{}
+		e.all = append(e.all, r)
+		e.pool <- r
+	}
 	defer func() {
-		if e.run.c != nil {
-			e.run.c.stop()
+		for _, r := range e.all {
+			if r.c != nil {
+				r.c.stop()
+			}
 		}
 	}()
 	if c.Replay != "" {
@@ -775,18 +917,23 @@ func run(c *core.Ctx) error {
 	}
 	total, wide := 0, 0
 	var neg *Case
+	var jobs []func() error
 	for i, f := range families {
 		for j := range outs[i].cases {
+			f, j := f, j
 			cs := &outs[i].cases[j]
 			key, _ := json.Marshal(cs.Seq)
 			uni := pickUniverse(c.Seed, f+string(key))
 			if f == "arr" {
 				uni -= uni % 4 // int64 map keys: the normalized entry order is the token order
 			}
-			if err := e.checkCase(f, cs, uni, 1); err != nil {
-				return err
-			}
-			c.Eval(f+"|1|"+string(key), len(cs.Seq) > 0)
+			jobs = append(jobs, func() error {
+				if err := e.checkCase(f, cs, uni, 1); err != nil {
+					return err
+				}
+				c.Eval(f+"|1|"+string(key), len(cs.Seq) > 0)
+				return nil
+			})
 			total++
 			// a sample at the dictionary boundary scale
 			every := 9
@@ -794,10 +941,13 @@ func run(c *core.Ctx) error {
 				every = 4
 			}
 			if (j+int(c.Seed))%every == 0 && len(cs.Seq) > 0 {
-				if err := e.checkCase(f, cs, uni, 255); err != nil {
-					return err
-				}
-				c.Eval(f+"|255|"+string(key), true)
+				jobs = append(jobs, func() error {
+					if err := e.checkCase(f, cs, uni, 255); err != nil {
+						return err
+					}
+					c.Eval(f+"|255|"+string(key), true)
+					return nil
+				})
 				wide++
 			}
 			if neg == nil && len(cs.Seq) == 2 && len(cs.Defects) == 0 && len(cs.Cols) == 1 {
@@ -808,6 +958,9 @@ func run(c *core.Ctx) error {
 			}
 		}
 	}
+	if err := runJobs(jobs, cap(e.pool)); err != nil {
+		return err
+	}
 	c.Logf("replayed %d cases at scale 1 and %d at scale 255 on the real writer/readers: %d drifted, %d violations", total, wide, e.drifts, c.Violations())
 	c.Set("cases_replayed", total)
 	c.Set("cases_at_dictionary_scale", wide)
@@ -816,6 +969,14 @@ func run(c *core.Ctx) error {
 	if err := e.boundary(); err != nil {
 		return err
 	}
+	if err := e.fixedCases(); err != nil {
+		return err
+	}
+	late := 0
+	for _, r := range e.all {
+		late += r.late
+	}
+	c.Set("children_died_after_answering", late)
 	c.Set("real_column_kinds_seen", e.kinds)
 	c.Set("cases_with_modelled_defect", e.defect)
 	c.Logf("boundary columns done: kinds seen %v; %d violations", e.kinds, c.Violations())
@@ -835,18 +996,53 @@ func run(c *core.Ctx) error {
 		bad.Row = append([]int(nil), neg.Row...)
 		bad.Row[len(bad.Row)-1]++
 		before := e.drifts
-		if err := e.checkCase("negative-control", &bad, 0, 1); err != nil {
+		e.quiet = true
+		err := e.checkCase("negative-control", &bad, 0, 1)
+		e.quiet = false
+		if err != nil {
 			return err
 		}
 		if e.drifts == before {
 			c.Inconclusive("negative control failed: a corrupted predicted result was not noticed")
 		} else {
-			c.Set("negative_control", "a corrupted predicted result is reported as drift")
-			// the injected drift is not a real one
-			c.Set("injected_drift", 1)
+			e.drifts = before
+			c.Set("negative_control", "a corrupted predicted result is noticed: "+e.lastQuiet)
 		}
 	}
 	return nil
+}
+
+// runJobs runs the jobs on n goroutines and returns the first error.
+func runJobs(jobs []func() error, n int) error {
+	var wg sync.WaitGroup
+	var mu sync.Mutex
+	var first error
+	next := 0
+	for w := 0; w < n; w++ {
+		wg.Add(1)
+		go func() {
+			defer wg.Done()
+			for {
+				mu.Lock()
+				if next >= len(jobs) || first != nil {
+					mu.Unlock()
+					return
+				}
+				job := jobs[next]
+				next++
+				mu.Unlock()
+				if err := job(); err != nil {
+					mu.Lock()
+					if first == nil {
+						first = err
+					}
+					mu.Unlock()
+				}
+			}
+		}()
+	}
+	wg.Wait()
+	return first
 }
 
 func exampleValues(cs *Case, uniIdx int) []string {
@@ -892,7 +1088,9 @@ func replay(e *env) error {
 		if w.Paths != nil {
 			req.Projs = [][][]string{w.Paths}
 		}
-		out, err := e.run.do(req)
+		run := <-e.pool
+		out, err := run.do(req)
+		e.pool <- run
 		if err != nil {
 			return err
 		}
